@@ -11,7 +11,7 @@ from impl import trees, treeanalysis, treeoutput, grammar, grammaranalysis, tran
 from props.c04 import HEADS
 
 ID = "C16"
-MODULE = ['TT.Props.C16', 'TT.Props.C16More', 'TT.Props.C16Tags', 'TT.Props.C16Total', 'TT.Props.C16Run', 'TT.Props.C16Stats']
+MODULE = ['TT.Props.C16', 'TT.Props.C16More', 'TT.Props.C16Tags', 'TT.Props.C16Total', 'TT.Props.C16Run', 'TT.Props.C16Stats', 'TT.Props.C16Src']
 RULE = ("every node of all shapes up to 4/5 tokens and of random trees with gap degree 0..n/2 (gaps at several levels, "
         "unary nodes): terminal_blocks, gap_degree_node, gap_degree; agreement of gap degree > 0 with the bracket "
         "writer's refusal and with non-context-freeness of the extracted grammar; disco_order in both modes on "
@@ -212,3 +212,9 @@ def gen(seed, tier, scale):
     for i, c in enumerate(cli.pmap(cli_case, rngs)):
         yield idx + i, c
     idx += ncli
+    # wave 18: the command with every source format and reader option against TT.runAnalysisSrc
+    import srccases
+    nsrc = (30 if tier == "quick" else 400) * scale
+    rngs = [case_rng(seed, ID, 700000 + i) for i in range(nsrc)]
+    for i, c in enumerate(cli.pmap(srccases.analysis_case, rngs)):
+        yield 700000 + i, c
